@@ -1,2 +1,249 @@
--- C16 property theorems (to be written)
-import Nq.Basic
+/-
+  C16 — New mail wakes the daemon: no lost trigger (and, by correspondence, no busy loop).
+
+  Model: `Nq.Trigger`.  Tie: the real qmail-queue (two instances) and the real qmail-send run as
+  threads under qsim with every interleaving of their trigger-related system calls enumerated
+  (`harness/c16_trigger.c`); each trace is abstracted to `Trigger.Ev` and replayed through
+  `Trigger.accept`.
+-/
+import Nq.Trigger
+
+namespace Nq.Props.C16
+open Nq Nq.Trigger
+
+/-- a wake-up is pending or a scan that will find `n` is under way -/
+def Covered (s : St) (n : Nat) : Prop :=
+  s.buf = true ∨ s.d = .closed ∨ s.d = .reopened ∨ ∃ rem, s.d = .scanning rem ∧ n ∈ rem
+
+structure Inv (s : St) : Prop where
+  cov : ∀ n, pulled (s.pc n) = true → n ∈ s.todo → Covered s n
+  open_iff : s.dOpen = false ↔ s.d = .closed
+  nodup : s.todo.Nodup
+
+theorem inv_init : Inv {} := by
+  refine ⟨?_, by simp, by simp⟩
+  intro n h; simp [pulled] at h
+
+theorem pc_upd_same (f : Nat → IPc) (n : Nat) (v : IPc) : upd f n v n = v := by simp [upd]
+theorem pc_upd_other (f : Nat → IPc) (n k : Nat) (v : IPc) (h : k ≠ n) : upd f n v k = f k := by simp [upd, h]
+
+theorem step_inv (s s' : St) (e : Ev) (hi : Inv s) (h : accept s e = some s') : Inv s' := by
+  obtain ⟨hcov, hopen, hnd⟩ := hi
+  cases e with
+  | iLink n =>
+    simp only [accept] at h
+    split at h
+    · rename_i hg; cases h
+      refine ⟨?_, hopen, List.nodup_cons.2 ⟨hg.2, hnd⟩⟩
+      intro k hk hmem
+      by_cases hkn : k = n
+      · subst hkn; simp [pc_upd_same, pulled] at hk
+      · simp only [pc_upd_other _ _ _ _ hkn] at hk
+        have hm : k ∈ s.todo := by simpa [hkn] using hmem
+        rcases hcov k hk hm with h1 | h1 | h1 | ⟨rem, h1, h2⟩
+        · exact Or.inl h1
+        · exact Or.inr (Or.inl h1)
+        · exact Or.inr (Or.inr (Or.inl h1))
+        · exact Or.inr (Or.inr (Or.inr ⟨rem, h1, h2⟩))
+    · cases h
+  | iOpen n ok =>
+    simp only [accept] at h
+    split at h
+    · rename_i hg; cases h
+      cases ok
+      · -- ENXIO: no reader, i.e. the daemon is inside trigger_set
+        have hcl : s.d = .closed := hopen.1 hg.2.symm
+        refine ⟨?_, hopen, hnd⟩
+        intro k hk hmem
+        exact Or.inr (Or.inl hcl)
+      · refine ⟨?_, hopen, hnd⟩
+        intro k hk hmem
+        by_cases hkn : k = n
+        · subst hkn; simp [pc_upd_same, pulled] at hk
+        · simp only [if_true, pc_upd_other _ _ _ _ hkn] at hk
+          exact hcov k hk hmem
+    · cases h
+  | iWrite n ok =>
+    simp only [accept] at h
+    split at h
+    · rename_i hg; cases h
+      refine ⟨?_, hopen, hnd⟩
+      intro k hk hmem
+      by_cases hkn : k = n
+      · subst hkn
+        cases ok
+        · exact Or.inr (Or.inl (hopen.1 hg.2.symm))
+        · left; simp
+      · simp only [pc_upd_other _ _ _ _ hkn] at hk
+        rcases hcov k hk hmem with h1 | h1 | h1 | h1
+        · left; simp [h1]
+        · exact Or.inr (Or.inl h1)
+        · exact Or.inr (Or.inr (Or.inl h1))
+        · exact Or.inr (Or.inr (Or.inr h1))
+    · cases h
+  | iClose n =>
+    simp only [accept] at h
+    split at h
+    · rename_i hg; cases h
+      refine ⟨?_, hopen, hnd⟩
+      intro k hk hmem
+      have hk' : pulled (s.pc k) = true := by
+        by_cases hkn : k = n
+        · subst hkn; simp [hg.1, pulled]
+        · simpa [pc_upd_other _ _ _ _ hkn] using hk
+      rcases hcov k hk' hmem with h1 | h1 | h1 | h1
+      · by_cases hlast : s.writers = 1 ∧ (!s.dOpen) = true
+        · right; left
+          exact hopen.1 (by simpa using hlast.2)
+        · left
+          show (if s.writers = 1 ∧ (!s.dOpen) = true then false else s.buf) = true
+          rw [if_neg hlast]; exact h1
+      · exact Or.inr (Or.inl h1)
+      · exact Or.inr (Or.inr (Or.inl h1))
+      · exact Or.inr (Or.inr (Or.inr h1))
+    · cases h
+  | dClose =>
+    simp only [accept] at h
+    split at h
+    · split at h
+      · cases h; exact ⟨fun k _ _ => Or.inr (Or.inl rfl), by simp, hnd⟩
+      · cases h
+    · split at h
+      · cases h; exact ⟨fun k _ _ => Or.inr (Or.inl rfl), by simp, hnd⟩
+      · cases h
+    · cases h
+  | dOpen =>
+    simp only [accept] at h
+    split at h
+    · cases h; exact ⟨fun k _ _ => Or.inr (Or.inr (Or.inl rfl)), by simp, hnd⟩
+    · cases h
+  | dOpendir =>
+    simp only [accept] at h
+    split at h
+    · rename_i hg; cases h
+      refine ⟨fun k _ hm => Or.inr (Or.inr (Or.inr ⟨s.todo, rfl, hm⟩)), ?_, hnd⟩
+      rw [hopen, hg]; simp
+    · cases h
+  | dSeeNew n =>
+    simp only [accept] at h
+    split at h
+    · rename_i rem hd
+      split at h
+      · cases h
+        refine ⟨?_, by rw [hopen, hd]; simp, hnd⟩
+        intro k hk hmem
+        rcases hcov k hk hmem with h1 | h1 | h1 | ⟨r, h1, h2⟩
+        · exact Or.inl h1
+        · rw [hd] at h1; cases h1
+        · rw [hd] at h1; cases h1
+        · rw [hd] at h1; cases h1
+          exact Or.inr (Or.inr (Or.inr ⟨n :: rem, rfl, List.mem_cons_of_mem _ h2⟩))
+      · cases h
+    · cases h
+  | dRead n =>
+    simp only [accept] at h
+    split at h
+    · rename_i rem hd
+      split at h
+      · cases h
+        refine ⟨?_, by rw [hopen, hd]; simp, hnd.erase n⟩
+        intro k hk hmem
+        have hkn : k ≠ n := by
+          intro he; subst he
+          exact (List.Nodup.not_mem_erase hnd) hmem
+        have hmem' : k ∈ s.todo := List.mem_of_mem_erase hmem
+        rcases hcov k hk hmem' with h1 | h1 | h1 | ⟨r, h1, h2⟩
+        · exact Or.inl h1
+        · rw [hd] at h1; cases h1
+        · rw [hd] at h1; cases h1
+        · rw [hd] at h1; cases h1
+          exact Or.inr (Or.inr (Or.inr ⟨rem.erase n, rfl, (List.mem_erase_of_ne hkn).2 h2⟩))
+      · cases h
+    · cases h
+  | dEnd =>
+    simp only [accept] at h
+    split at h
+    · rename_i rem hd
+      split at h
+      · rename_i hr; cases h
+        subst hr
+        refine ⟨?_, by rw [hopen, hd]; simp, hnd⟩
+        intro k hk hmem
+        rcases hcov k hk hmem with h1 | h1 | h1 | ⟨r, h1, h2⟩
+        · exact Or.inl h1
+        · rw [hd] at h1; cases h1
+        · rw [hd] at h1; cases h1
+        · rw [hd] at h1; cases h1; simp at h2
+      · cases h
+    · cases h
+
+def Reach (s : St) : Prop := ∃ evs, acceptAll {} evs = some s
+
+theorem reach_inv (s : St) (h : Reach s) : Inv s := by
+  obtain ⟨evs, h⟩ := h
+  have key : ∀ (evs : List Ev) (s0 s1 : St), Inv s0 → acceptAll s0 evs = some s1 → Inv s1 := by
+    intro evs
+    induction evs with
+    | nil => intro s0 s1 h0 ha; simp [acceptAll] at ha; subst ha; exact h0
+    | cons e es ih =>
+      intro s0 s1 h0 ha
+      simp only [acceptAll] at ha
+      cases h1 : accept s0 e with
+      | none => simp [h1] at ha
+      | some s2 => simp [h1] at ha; exact ih s2 s1 (step_inv s0 s2 e h0 h1) ha
+  exact key evs {} s inv_init h
+
+/-- **No lost wake-up**, for every interleaving of any number of injectors with the daemon: whenever
+the daemon is outside a todo scan and some injector has completed its publish-then-signal steps for
+an entry that is still unprocessed, the trigger descriptor is readable — `select` returns at once,
+without the periodic rescan. -/
+theorem C16_no_lost_wakeup (s : St) (h : Reach s) (n : Nat) (hp : pulled (s.pc n) = true) (hm : n ∈ s.todo)
+    (hd : s.d = .idle) : s.buf = true := by
+  rcases (reach_inv s h).cov n hp hm with h1 | h1 | h1 | ⟨r, h1, _⟩
+  · exact h1
+  · rw [hd] at h1; cases h1
+  · rw [hd] at h1; cases h1
+  · rw [hd] at h1; cases h1
+
+/-- **A scan in progress covers it**: if the wake-up is not pending, the daemon is inside
+`trigger_set()`/before `opendir` (so the coming scan starts after the link), or its open directory
+stream will still return the entry. -/
+theorem C16_covered (s : St) (h : Reach s) (n : Nat) (hp : pulled (s.pc n) = true) (hm : n ∈ s.todo) : Covered s n :=
+  (reach_inv s h).cov n hp hm
+
+/-- **A scan ends only when it has returned every entry it covers**: `closedir` needs `rem = []`. -/
+theorem C16_scan_complete (s s' : St) (h : accept s .dEnd = some s') : s.d = .scanning [] := by
+  simp only [accept] at h
+  split at h
+  · rename_i rem hd
+    split at h
+    · rename_i hr; subst hr; exact hd
+    · cases h
+  · cases h
+
+/-- **Order in the daemon**: `opendir` is accepted only right after the FIFO was reopened
+(`trigger_set` precedes `opendir`), and **order in the injector**: the trigger is opened only after the
+link. These are the two facts the invariant rests on; the mutants that swap them are rejected. -/
+theorem C16_order (s s' : St) :
+    (accept s .dOpendir = some s' → s.d = .reopened) ∧ (∀ n ok, accept s (.iOpen n ok) = some s' → s.pc n = .linked) := by
+  constructor
+  · intro h; simp only [accept] at h; split at h
+    · rename_i hg; exact hg
+    · cases h
+  · intro n ok h; simp only [accept] at h; split at h
+    · rename_i hg; exact hg.1
+    · cases h
+
+/-! ### Non-vacuity -/
+
+/-- two injectors; the second links and pulls while the daemon is between close and reopen (ENXIO):
+still covered, and picked up by the scan that follows -/
+example : (acceptAll {} [.dOpen, .dClose, .dOpen, .dOpendir, .dEnd,
+    .iLink 5, .iOpen 5 true, .iWrite 5 true, .dClose, .iLink 6, .iOpen 6 false, .dOpen, .iClose 5, .dOpendir,
+    .dRead 6, .dRead 5, .dEnd]).map (fun s => (s.todo, s.buf)) = some ([], true) := by
+  decide
+
+/-- the wrong order (scan, then re-arm) is not the model's daemon -/
+example : acceptAll {} [.dOpen, .dClose, .dOpendir] = none := by decide
+
+end Nq.Props.C16
